@@ -35,7 +35,7 @@ echo "$tests" | grep -q "failed" && ok=0
 find "$W" -name "*.so" -delete; rm -rf "$W/build" "$W/tmp"
 for id in "${IDS[@]}"; do
   t0=$(date +%s)
-  out=$(cd /verif && VERIF_REPO="$W" VERIF_BUILD_DIR=/tmp/mut-build ./check "$id" --tier quick --no-evidence 2>&1 | grep -av WARNING)
+  out=$(cd /verif && VERIF_REPO="$W" VERIF_BUILD_DIR=/tmp/mut-build timeout -k 10 1800 ./check "$id" --tier quick --no-evidence 2>&1 | grep -av WARNING)
   echo "$out" | grep -a "VIOLATION\|HARNESS\|subcheck=" | cut -c1-260 | head -8
   echo "check $id: $(echo "$out" | grep -ac '^VIOLATION') violation line(s) in $(( $(date +%s) - t0 ))s"
 done
